@@ -238,8 +238,8 @@ class Prog:
       ("gate", name, [qubit], [int], noop)          qubit: int | ("p", j)   int: int | let-name | ("p", j)
       ("call", macro-name, [qubit], [int])
       ("loop", count, [item])                       count: int | let-name
-      ("par", [branch])                             branch: [item] (rendered bare when a single item)
-      ("seq", [item])
+      ("par", [branch])                             branch: [item] (rendered bare when a single item, else `{ … }`;
+                                                    Jaqal has no sequential block directly inside a sequential one)
     """
 
     def __init__(self, rng, n, nsub, maxlen, feat):
@@ -260,6 +260,7 @@ class Prog:
         self.subs = []  # (style, [item])
         for _ in range(nsub):
             style = rng.choice(["plain", "block", "blockN"])
+            feat["sub_" + style] += 1
             self.subs.append((style, self._gen_items(rng.randint(0, maxlen), depth=0)))
 
     # ---- header
@@ -351,6 +352,7 @@ class Prog:
             return None
         m = rng.choice(ms)
         nq, ni, _ = self.macros[m]
+        self.feat["macro_call"] += 1
         return ("call", m, rng.sample(pool, nq), [self._int_arg() for _ in range(ni)])
 
     def _gen_simple(self, pool):
@@ -394,10 +396,6 @@ class Prog:
                     body.append(g)
                 items.append(("loop", cnt, body))
                 self.feat["loop"] += 1
-            elif r < 0.32 and depth < 2:
-                body = self._gen_items(rng.randint(1, 3), depth + 1)
-                if any(not (x[0] == "gate" and x[4]) for x in body):
-                    items.append(("seq", body))
             else:
                 x = self._gen_simple(allq)
                 if x:
@@ -518,7 +516,6 @@ class Prog:
                 out += ["subcircuit {"] + body + ["}"]
             else:
                 out += ["subcircuit 3 {"] + body + ["}"]
-            self.feat["sub_" + style] += 1
         return "\n".join(out) + "\n"
 
 
@@ -548,6 +545,8 @@ def model_gates(sub):
 def call_driver(driver, reqs):
     if not reqs:
         return []
+    if not os.path.exists(driver):
+        raise RuntimeError("model driver not built: " + driver + "  (cd /verif/lean && lake build jaqal-model)")
     inp = "\n".join(json.dumps(r, separators=(",", ":")) for r in reqs) + "\n"
     p = subprocess.run([driver], input=inp, capture_output=True, text=True)
     outs = [json.loads(l) for l in p.stdout.splitlines() if l.strip()]
@@ -643,16 +642,17 @@ def _guard(f, case):
 # ------------------------------------------------------------------ run
 def run(seed: int, n: int, driver: str = DEFAULT_DRIVER, thorough: bool = False) -> dict:
     rng = random.Random(f"emu_diff:{seed}")
-    feat = {k: 0 for k in ["par", "loop", "alias_ref", "sub_plain", "sub_block", "sub_blockN"]}
+    feat = {k: 0 for k in ["par", "loop", "alias_ref", "macro_call", "sub_plain", "sub_block", "sub_blockN"]}
     dist = {}
 
     def bump(k, d=1):
         dist[k] = dist.get(k, 0) + d
 
     corr = {op: {"cases": 0, "disagreements": []} for op in ["run_gates", "apply_gate", "run_gates_irregular"]}
-    oracle = {o: {"cases": 0, "failures": []} for o in ORACLES}
+    oracle = {o: {"cases": 0, "failures": [], "total_failures": 0} for o in ORACLES}
     samples, distinct = [], set()
     pending = []  # (op, case, impl, nreq)
+    probs_of = {}
     reqs = []
 
     def add_corr(op, case, impl):
@@ -663,8 +663,11 @@ def run(seed: int, n: int, driver: str = DEFAULT_DRIVER, thorough: bool = False)
     def add_oracle(name, case):
         ok, detail = _guard(ORACLES[name], case)
         oracle[name]["cases"] += 1
-        if not ok and len(oracle[name]["failures"]) < 20:
-            oracle[name]["failures"].append({"case": case, "detail": detail})
+        oracle[name].setdefault("total_failures", 0)
+        if not ok:
+            oracle[name]["total_failures"] += 1
+            if len(oracle[name]["failures"]) < 20:
+                oracle[name]["failures"].append({"case": case, "detail": detail})
 
     # ---- 1. random structured programs through the real pipeline
     for _ in range(n):
@@ -675,7 +678,9 @@ def run(seed: int, n: int, driver: str = DEFAULT_DRIVER, thorough: bool = False)
         subs = prog.serialise()
         case = {"kind": "run", "text": text, "n": nq, "subs": subs}
         try:
-            impl = impl_run(case)
+            st = run_pipeline(text)
+            impl = [vec_json(v) for v, _ in st]
+            probs_of[id(case)] = [[float(x) for x in p] for _, p in st]
         except Exception as e:
             impl = f"{type(e).__name__}: {e}"
             bump("impl_exception")
@@ -689,6 +694,7 @@ def run(seed: int, n: int, driver: str = DEFAULT_DRIVER, thorough: bool = False)
         ov = {k: rng.randrange(8) for k in ["K0", "K1", "K2"] if rng.random() < 0.7}
         ov.update({k: rng.randrange(4) for k in ["L0", "L1"] if rng.random() < 0.7})
         if ov:
+            bump("override_changes_gate_list", int(prog.serialise(ov) != subs))
             add_oracle("let_override", {"kind": "let_override", "text": text, "ov": ov, "n": nq,
                                         "ref_text": prog.render(rs, vals=ov), "subs": prog.serialise(ov)})
         # bookkeeping
@@ -698,8 +704,6 @@ def run(seed: int, n: int, driver: str = DEFAULT_DRIVER, thorough: bool = False)
         bump("subcircuits", len(subs))
         bump("gates_executed", executed)
         bump("gates_without_unitary_or_idle", skipped)
-        bump("programs_with_macro_call", int(any(m in text.split("register")[1].split("prepare_all")[0] or True for m in prog.macros) and any(
-            (" " + m + " ") in text.replace("\n", " \n ") or ("\n" + m + " ") in text for m in prog.macros)))
         bump("programs_with_maps", int(bool(prog.maps)))
         bump("programs_let_sized_register", int(prog.let_sized))
         for s in subs:
@@ -772,24 +776,21 @@ def run(seed: int, n: int, driver: str = DEFAULT_DRIVER, thorough: bool = False)
     outs = call_driver(driver, reqs)
     pos = 0
     for op, case, impl, k in pending:
-        model = model_view(case, outs[pos:pos + k])
+        mouts = outs[pos:pos + k]
+        model = model_view(case, mouts)
         pos += k
         corr[op]["cases"] += 1
-        if model != impl and len(corr[op]["disagreements"]) < 20:
-            corr[op]["disagreements"].append({"case": case, "model": model, "impl": impl})
-        elif model != impl:
-            pass
+        if model == impl and op == "run_gates" and id(case) in probs_of:
+            # probabilities: exact dyadic |amplitude|^2 of the model against the reported floats
+            mp = [[int(a) / 2 ** int(b) for a, b in o["probs"]] for o in mouts]
+            ip = probs_of[id(case)]
+            if any(len(x) != len(y) or max(abs(u - v) for u, v in zip(x, y)) > 1e-12 for x, y in zip(mp, ip)):
+                model, impl = {"probs": mp}, {"probs": ip}
         corr[op].setdefault("_bad", 0)
-        corr[op]["_bad"] += int(model != impl)
-    # probabilities of the model (exact dyadic) against the reported ones, for the regular programs
-    pos = 0
-    for op, case, impl, k in pending:
-        if op == "run_gates" and not isinstance(impl, str):
-            try:
-                probs = [p for _, p in run_pipeline(case["text"])] if False else None
-            except Exception:
-                probs = None
-        pos += k
+        if model != impl:
+            corr[op]["_bad"] += 1
+            if len(corr[op]["disagreements"]) < 20:
+                corr[op]["disagreements"].append({"case": case, "model": model, "impl": impl})
     for op in corr:
         corr[op]["total_disagreements"] = corr[op].pop("_bad", 0)
 
@@ -840,12 +841,12 @@ def main(argv=None):
         print(f"corr   {op:26s} cases={r['cases']:6d} disagreements={r['total_disagreements']}")
         bad += r["total_disagreements"]
         for d in r["disagreements"][:2]:
-            print("   CASE", json.dumps(d)[:1500])
+            print("   CASE", json.dumps(d)[:600])
     for o, r in res["oracle"].items():
-        print(f"oracle {o:26s} cases={r['cases']:6d} failures={len(r['failures'])}")
-        bad += len(r["failures"])
+        print(f"oracle {o:26s} cases={r['cases']:6d} failures={r['total_failures']}")
+        bad += r["total_failures"]
         for d in r["failures"][:2]:
-            print("   CASE", json.dumps(d)[:1500])
+            print("   CASE", json.dumps(d)[:600])
     print(f"nontrivial={res['nontrivial']}  distribution=" + json.dumps({k: v for k, v in res["distribution"].items() if not k.startswith("gate:")}))
     return 1 if bad else 0
 
